@@ -126,12 +126,74 @@ def oracle_track(rec, lines):
     return None
 
 
+def dyn_cases(rng, count):
+    """tracked particles under the DYNAMIC RF map (phase modulation / noise: the kick changes from step to step):
+    after every apply() the particles are moved by applyToAll(), as in the main loop"""
+    recs = []
+    for k in range(count):
+        n = rng.choice([16, 17, 24])
+        it = rng.choice([2, 3, 4])
+        steps = rng.randint(3, 6)
+        sps = rng.choice([100, 200])
+        box = [f32(-6), f32(6), f32(-6), f32(6), f32(1.2e-3), f32(6.11e5)]
+        angle = f32(2 * math.pi / sps)
+        mode = ["mod", "noise", "both"][k % 3]
+        # (amplitudes chosen so that one step displaces the charge by a fraction of a cell, differently in every step)
+        ps = f32(rng.uniform(0.01, 0.05)) if mode in ("noise", "both") else 0.0
+        as_ = f32(rng.uniform(0.01, 0.05)) if mode in ("noise", "both") else 0.0
+        ma = f32(rng.uniform(0.02, 0.1)) if mode in ("mod", "both") else 0.0
+        mt = f32(rng.uniform(0.05, 0.2)) if mode in ("mod", "both") else 0.0
+        e = box + [angle, f32(4.5e8), f32(9e6 / (8e3 * sps)), f32(1e6), f32(4.5e4), ps, as_, ma, mt]
+        c0 = (n - 1) / 2.0
+        data = [f32(math.exp(-0.5 * (((x - c0) / (n / 5.0)) ** 2 + ((y - c0) / (n / 10.0)) ** 2))) for x in range(n) for y in range(n)]
+        parts = [(f32(c0 + rng.uniform(-3, 3)), f32(c0 + rng.uniform(-2, 2))) for _ in range(6)]
+        cid = "y%d" % k
+        recs.append(dict(id=cid, n=n, it=it, steps=steps, mode=mode, parts=parts, data=data,
+                         optext="dynrf %s %d %d 1 lin %d\nextra %s\ndata %s\nparts %s\nops %s\nrun\n" % (
+                             cid, n, it, steps, " ".join(f2h(x) for x in e), " ".join(f2h(x) for x in data),
+                             " ".join(f2h(v) for p in parts for v in p), " ".join(["a"] * steps))))
+    return recs
+
+
+def oracle_dyn(rec, lines):
+    """the particle must move with the charge around it: its displacement in step k is the (interpolated) shift of
+    the column centroids of the grid in the SAME step"""
+    n = rec["n"]
+    before = [[float(rec["data"][x * n + y]) for y in range(n)] for x in range(n)]
+    cb = [sum(y * v for y, v in enumerate(col)) / sum(col) for col in before]
+    k = -1
+    out = None
+    for l in lines:
+        t = l.split()
+        if t[0] == "ops" and t[1] == "a":
+            k += 1
+        elif t[0] == "out":
+            out = [h2f(x) for x in t[1:]]
+        elif t[0] == "parts" and out is not None:
+            after = [out[x * n:(x + 1) * n] for x in range(n)]
+            ca = [sum(y * v for y, v in enumerate(col)) / sum(col) for col in after]
+            pv = [h2f(x) for x in t[1:]]
+            for j, (px, py) in enumerate(rec["parts"]):
+                i = int(math.floor(px))
+                f = px - i
+                want = py + (1 - f) * (ca[i] - cb[i]) + f * (ca[i + 1] - cb[i + 1])
+                got = pv[2 * j + 1]
+                if abs(got - want) > 2e-3 + 2e-3 * abs(want - py):
+                    return ("dynamic RF, step %d: particle %d at (%.3f, %.3f) is moved to y=%.4f, the charge of its column moves "
+                            "to y=%.4f" % (k, j, px, py, got, want))
+    if k < 0:
+        return "no output"
+    return None
+
+
 def explore(chk, harness, nblob, ntrack, sizes, tag):
     rng = lib.Rng(chk.seed, "C15/" + tag)
     brecs = blob_cases(rng, nblob, sizes)
     trecs = track_cases(rng, ntrack)
-    optexts = {r["id"]: r["optext"] for r in brecs + trecs}
-    A, B, mism, drift, san = corr.run_correspondence(chk, harness, {r["id"]: r["optext"] for r in brecs}, tag)
+    drecs = dyn_cases(rng, max(3, ntrack // 3))
+    optexts = {r["id"]: r["optext"] for r in brecs + trecs + drecs}
+    A, B, mism, drift, san = corr.run_correspondence(chk, harness, {r["id"]: r["optext"] for r in brecs + drecs}, tag)
+    mism = [(cid, d) for cid, d in mism if not any(l.startswith("skip") for l in B.get(cid, []))]
     # tracking statistics: implementation only (PRNG inside the class)
     txt = "".join(r["optext"] for r in trecs)
     a, _, rc, err, _, _ = C.run_both(harness, txt, "C15t" + tag)
@@ -147,6 +209,11 @@ def explore(chk, harness, nblob, ntrack, sizes, tag):
         f = oracle_track(r, At.get(r["id"], []))
         if f:
             fails.append((r, f))
+    for r in drecs:
+        f = oracle_dyn(r, A.get(r["id"], []))
+        if f:
+            fails.append((r, f))
+    chk.cov["dynamic_rf_tracking_cases"] = chk.cov.get("dynamic_rf_tracking_cases", 0) + len(drecs)
     return brecs, trecs, optexts, mism, drift, san, fails
 
 
